@@ -1,10 +1,10 @@
 //! C09 - DP rewriting is exact when noise and clipping are inactive (DESIGN 3, C09).
-use crate::engine::{DrawMode, DrawPlan};
+use simcommon::engine::{DrawMode, DrawPlan};
 use crate::ir;
 use crate::oracle::*;
 use crate::pipeline::{self, CompileError};
-use crate::query::AggFn;
-use crate::scenario::{Cell, Scenario, TableSpec, ROW_PRIVACY};
+use simcommon::query::AggFn;
+use simcommon::scenario::{Cell, Scenario, TableSpec, ROW_PRIVACY};
 use serde_json::json;
 
 fn close(a: f64, b: f64, rel: f64, abs: f64) -> bool {
